@@ -9,7 +9,7 @@
 (* signature of key k over exactly the message under verification; "s" is  *)
 (* a (well-formed) signature of key k over ANOTHER message, "c" a          *)
 (* well-formed signature with a corrupted byte, "x" bytes that do not      *)
-(* deserialize as a signature.                                             *)
+(* deserialize as a signature, "me".."mw" malformed blobs (see Malformed). *)
 (*                                                                         *)
 (* Verification scripts are sequences of tokens (all tokens carry the same *)
 (* fields so that TLC can compare them):                                   *)
@@ -135,8 +135,22 @@ Good(k)  == [kind |-> "g", by |-> k]
 Stale(k) == [kind |-> "s", by |-> k]
 Corrupt(k) == [kind |-> "c", by |-> k]
 Garbage  == [kind |-> "x", by |-> 0]
+\* MALFORMED SIGNATURE BLOBS: bytes pushed where a signature belongs that are NOT a serialized signature of the size
+\* the scheme of key `by` prescribes.  A serialized signature is  scheme byte || value  (the value has one fixed
+\* length per key type); the shapes name what is wrong with the blob:
+\*   "me" nothing pushed (empty)          "mo" a scheme byte and nothing else
+\*   "mt" scheme byte of the key's own scheme || a TRUNCATED value (fewer bytes than the scheme prescribes)
+\*   "ml" the key's own scheme || an OVER-LONG value (a complete value followed by more bytes)
+\*   "mw" a scheme byte that does not belong to the key's type || a value of any length
+\* Ideal cryptography: none of them is a signature of anybody over anything (ValidFor is FALSE).  Whether
+\* s.Deserialize accepts the blob depends on the scheme ("me"/"mo" are always refused: fewer than 2 bytes); what
+\* the library's Verify does with a blob of unexpected length is NOT constrained here beyond "does not say valid"
+\* (it may return false or abort the call - see SigTx!Analyze.malex).
+MalShapes == {"me", "mo", "mt", "ml", "mw"}
+Malformed(sh, k) == [kind |-> sh, by |-> k]
+IsMalformed(sig) == sig.kind \in MalShapes
 ValidFor(sig, k) == sig.kind = "g" /\ sig.by = k       \* s.Verify(key, data, sig)
-WellFormed(sig) == sig.kind # "x"                       \* s.Deserialize(sig) succeeds
+WellFormed(sig) == sig.kind \notin {"x", "me", "mo"}   \* s.Deserialize(sig) succeeds (for mt/ml/mw: may succeed)
 
 \* signature.VerifyMultiSignature as coded: the first m signatures, each matched with the first
 \* not yet used key that verifies it.  byPosition = TRUE is the code (a key is "used" per list
